@@ -47,6 +47,13 @@ func runC10(e *core.Env) {
 		text := m.Text
 		single := true
 		rules := m.Rule
+		if r.Chance(1, 12) {
+			// a valid document decorated with stray CRs, NULs and non-UTF-8 bytes in its summaries: if anything is reported for
+			// it, the report has to be well-formed
+			if t2, ok2 := c08Decorate(r, d); ok2 {
+				text, rules, single = t2, "decorated-valid-document", false
+			}
+		}
 		if r.Chance(1, 5) {
 			// multi-fault: append further mutated documents
 			for k := r.Range(1, 3); k > 0; k-- {
@@ -108,11 +115,17 @@ func c10Stretch(r *core.Rand, text string) string {
 
 func c10Check(e *core.Env, r *core.Rand, idx int64, text, rules string, single bool, m gen.Mutant, d *gen.Out) {
 	rec := ref.Recognise(text)
-	if rec.Verdict != ref.NonConforming {
-		e.Count("mutants_discarded_"+rec.Verdict.String(), 1)
-		return
+	// known: the reference knows where the text stops conforming. Otherwise (conforming or undecided for the reference) nothing
+	// is said about WHETHER klog reports errors (that is C01) - but every error it does report must still be well-formed
+	// (an existing line, quoted verbatim, a span inside it, displayable).
+	known := rec.Verdict == ref.NonConforming
+	if !known {
+		e.Count("texts_not_rejected_by_the_reference_"+rec.Verdict.String(), 1)
 	}
 	w := map[string]any{"text": text, "operator": rules, "expected_first_bad_line": rec.BadLine + 1, "rule": rec.Rule}
+	if !known {
+		w = map[string]any{"text": text, "operator": rules, "reference_verdict": rec.Verdict.String()}
+	}
 	lines := ref.SplitLines(text)
 	engines := []struct {
 		name string
@@ -168,10 +181,10 @@ func c10Check(e *core.Env, r *core.Rand, idx int64, text, rules string, single b
 				e.Violation("error-message", fmt.Sprintf("%s: error #%d: inconsistent title/details/message", en.name, k), w)
 			}
 		}
-		if !rec.LineAmbiguous && t.Errs[0].Panic == "" && t.Errs[0].Line != rec.BadLine+1 {
+		if known && !rec.LineAmbiguous && t.Errs[0].Panic == "" && t.Errs[0].Line != rec.BadLine+1 {
 			e.Violation("first-error-on-wrong-line", fmt.Sprintf("%s: first error (%s) is reported on line %d, but the text stops conforming on line %d (%s): %q", en.name, t.Errs[0].Code, t.Errs[0].Line, rec.BadLine+1, rec.Rule, lines[rec.BadLine].Text), w)
 		}
-		if single {
+		if single && known {
 			layout := ""
 			for _, f := range []string{"crlf", "mixed_eol", "no_final_newline", "leading_blank_lines"} {
 				if d.Feat[f] {
@@ -181,10 +194,14 @@ func c10Check(e *core.Env, r *core.Rand, idx int64, text, rules string, single b
 			e.Distinct("rule_position_layout_engine", core.Hash64(rec.Rule, m.PosClass, layout, en.name[:3]))
 		}
 	}
-	e.Count("invalid_texts", 1)
-	e.Count("rule_"+rec.Rule, 1)
-	e.Nontrivial(core.Hash64("c10", text))
-	if e.WantSample() && len(text) < 300 {
+	if known {
+		e.Count("invalid_texts", 1)
+		e.Count("rule_"+rec.Rule, 1)
+		e.Nontrivial(core.Hash64("c10", text))
+	} else {
+		e.Count("errors_reported_for_texts_the_reference_does_not_reject", 1)
+	}
+	if known && e.WantSample() && len(text) < 300 {
 		e.Sample(map[string]any{"text": text, "operator": rules, "first_bad_line": rec.BadLine + 1, "errors": serialErrs})
 	}
 	if idx%4 == 0 {
@@ -207,6 +224,39 @@ func c10Renderings(e *core.Env, r *core.Rand, idx int64, text string, api []obs.
 		fileArgs = []string{writeFile(e.Dir, "good.klg", "2020-01-01\nfine\n    1h\n\n2020-01-02\n    2h\n"), f}
 		e.Count("renderings_with_two_input_files", 1)
 	}
+	type expErr struct {
+		obs.ErrInfo
+		file string
+	}
+	var exp []expErr
+	for _, a := range api {
+		exp = append(exp, expErr{a, f})
+	}
+	if idx%12 == 4 {
+		// two faulty files, the later-sorting path first, more than a dozen errors in all: the report lists the errors file by
+		// file in the order of the arguments, each file's errors in line order
+		big := strings.Repeat(text+"\n\n", 8)
+		if t1, pi := parseWith(parser.NewSerialParser(), big); pi == nil && len(t1.Errs) > 0 {
+			ok := true
+			for _, er := range t1.Errs {
+				if er.Panic != "" {
+					ok = false
+				}
+			}
+			if ok {
+				zz, aa := writeFile(e.Dir, "zz-given-first.klg", big), writeFile(e.Dir, "aa-given-second.klg", text)
+				fileArgs = []string{zz, aa}
+				exp = nil
+				for _, a := range t1.Errs {
+					exp = append(exp, expErr{a, zz})
+				}
+				for _, a := range api {
+					exp = append(exp, expErr{a, aa})
+				}
+				e.Count("renderings_with_two_faulty_files", 1)
+			}
+		}
+	}
 	themes := []string{"no_colour"}
 	if idx%8 == 0 {
 		themes = []string{r.Pick("dark", "light", "basic")}
@@ -226,14 +276,14 @@ func c10Renderings(e *core.Env, r *core.Rand, idx int64, text string, api []obs.
 			e.Violation("terminal-report-malformed", fmt.Sprintf("theme %s: %v\nreport:\n%s", th, perr, trunc(obs.StripSGR(res.Err), 1500)), w)
 			continue
 		}
-		if len(tes) != len(api) {
-			e.Violation("terminal-report-error-count", fmt.Sprintf("theme %s: report shows %d errors, the parser returned %d", th, len(tes), len(api)), w)
+		if len(tes) != len(exp) {
+			e.Violation("terminal-report-error-count", fmt.Sprintf("theme %s: report shows %d errors, the parser returned %d", th, len(tes), len(exp)), w)
 			continue
 		}
 		for k, te := range tes {
-			a := api[k]
+			a := exp[k]
 			wantQuoted := strings.ReplaceAll(a.LineText, "\t", " ")
-			if te.Line != a.Line || te.Pos != a.Pos || te.Len != a.Len || te.Quoted != wantQuoted || te.Message != normWS(a.Message) || te.File != f {
+			if te.Line != a.Line || te.Pos != a.Pos || te.Len != a.Len || te.Quoted != wantQuoted || te.Message != normWS(a.Message) || te.File != a.file {
 				e.Violation("terminal-report-differs", fmt.Sprintf("theme %s, error #%d: report shows line %d, %d blanks + %d carets, quoted %q, file %q, message %q;\nAPI says line %d, position %d, length %d, line text %q, message %q",
 					th, k, te.Line, te.Pos, te.Len, te.Quoted, te.File, te.Message, a.Line, a.Pos, a.Len, wantQuoted, normWS(a.Message)), w)
 				break
@@ -287,20 +337,20 @@ func c10Renderings(e *core.Env, r *core.Rand, idx int64, text string, api []obs.
 			e.Violation("json-report-shape", "for an invalid file `errors` must be an array and `records` null: "+trunc(res.Out, 300), w)
 			continue
 		}
-		if len(errsArr) != len(api) {
-			e.Violation("json-report-error-count", fmt.Sprintf("json shows %d errors, the parser returned %d", len(errsArr), len(api)), w)
+		if len(errsArr) != len(exp) {
+			e.Violation("json-report-error-count", fmt.Sprintf("json shows %d errors, the parser returned %d", len(errsArr), len(exp)), w)
 			continue
 		}
 		for k, raw := range errsArr {
 			o, _ := raw.(map[string]any)
-			a := api[k]
+			a := exp[k]
 			ln, _ := obs.JInt(o, "line")
 			col, _ := obs.JInt(o, "column")
 			lg, _ := obs.JInt(o, "length")
 			title, _ := obs.JStr(o, "title")
 			details, _ := obs.JStr(o, "details")
 			file, _ := obs.JStr(o, "file")
-			if ln != a.Line || col != a.Pos+1 || lg != a.Len || title != a.Title || details != a.Details || file != f {
+			if ln != a.Line || col != a.Pos+1 || lg != a.Len || title != a.Title || details != a.Details || file != a.file {
 				e.Violation("json-report-differs", fmt.Sprintf("error #%d: json shows line %d column %d length %d title %q file %q; API says line %d position %d length %d title %q", k, ln, col, lg, title, file, a.Line, a.Pos, a.Len, a.Title), w)
 				break
 			}
